@@ -88,7 +88,8 @@ def one(rng):
                 l.expect = "own-reader-must-accept"
                 lines.append(l)
         else:
-            cf = grammaranalysis.is_contextfree(g)
+            # context-free: every linearization of every rule has one argument (decided here, not by the code under test)
+            cf = all(len(lin) <= 1 for f in g for lin in g[f])
             if err is not None:
                 lines.append(Line("corr", "write_lopar", [genc, lenc], err))
                 if cf:
